@@ -4,6 +4,7 @@ package main
 
 import (
 	"fmt"
+	"go/ast"
 	"go/types"
 	"os"
 
@@ -36,6 +37,7 @@ type c12State struct {
 	frameReach                 map[string]bool
 	rows                       map[*Emission]*c12Row // emissions expanded from a row of a constant table
 	strEvals                   map[*packages.Package]*strEval
+	pkgLits                    map[*types.Var]*ast.CompositeLit // read-only package-level struct variables -> their literal
 }
 
 func runC12(c *Ctx) {
@@ -71,10 +73,21 @@ func runC12(c *Ctx) {
 		return
 	}
 	st.ems = ExtractEmissions(c.P, c.P.FuncsIn("vaxis"), vaxisTerminalSink)
-	for _, e := range st.ems {
-		if !e.Resolved {
-			st.resolveByExec(e)
+	c12GuardOverride = map[*Emission][]Guard{}
+	{
+		var kept []*Emission
+		for _, e := range st.ems {
+			if !e.Resolved {
+				st.resolveByExec(e)
+			}
+			if !e.Resolved {
+				if _, dropped := st.resolveStructField(e); dropped {
+					continue
+				}
+			}
+			kept = append(kept, e)
 		}
+		st.ems = kept
 	}
 	st.expandSites()
 	st.expandTables()
